@@ -148,6 +148,71 @@ def snapshot(ctx, work, cfgname, exe, objs):
     ctx.extra.setdefault('writable_symbols', {})[cfgname] = [n for _, _, n in table]
 
 
+SNAP_WORKLOADS = [('c04', 'opdrv.cpp'), ('c02', 'opdrv.cpp'), ('c05', 'opdrv.cpp'), ('c06', 'opdrv.cpp'), ('c07', 'opdrv.cpp'), ('c01', 'opdrv.cpp'), ('c08', 'opdrv.cpp'),
+                  ('c09', 'opdrv.cpp'), ('c10', 'opdrv.cpp'), ('c11', 'wkd_drv.cpp'), ('c13', 'wkd_drv.cpp'), ('c14', 'wkd_drv.cpp'), ('c15', 'scheme_drv.cpp'), ('c16', 'scheme_drv.cpp')]
+
+
+def snapshot_workloads(ctx, work, objs):
+    """the writable-symbol snapshot over the workloads of the other properties: the C20 driver only calls the C interface, the other drivers
+    also call the C++-only entry points (field / tower / curve methods, map_to_cyclotomic, the multiplication variants ...).  Each driver
+    copies the library's writable symbols when main starts and compares them when it exits."""
+    import importlib
+    import session
+    names = set()
+    for l in sh(['nm', '-S'] + objs).stdout.split('\n'):
+        p = l.split()
+        if len(p) == 4 and p[2] in 'DdBb':
+            names.add(p[3])
+    total = 0
+    exes = {}
+    for drv in sorted({d for _, d in SNAP_WORKLOADS}):
+        exe = build.build_driver('prod', drv, extra_ld=['-no-pie'], name=drv.replace('.cpp', '') + '_nopie')
+        f = os.path.join(work, 'symbols_%s.txt' % drv)
+        n = 0
+        with open(f, 'w') as fh:
+            for l in sh(['nm', '-S', exe]).stdout.split('\n'):
+                p = l.split()
+                if len(p) == 4 and p[2] in 'DdBb' and p[3] in names:
+                    fh.write('%s %d %s\n' % (p[0], int(p[1], 16), p[3]))
+                    n += 1
+        if not n:
+            raise harness.HarnessError('no writable library symbols resolved in %s' % exe)
+        exes[drv] = (exe, ['--snapshot', f])
+    import multiprocessing as mp
+
+    def proc(name, drv, conn):
+        try:
+            mod = importlib.import_module(name)
+            sub = harness.Ctx(name.upper(), 'quick', ctx.seed)
+            ex = {'prod': exes[drv], 'san': exes[drv]} if name == 'c15' else {'snap': exes[drv]}
+            session.run_shards(sub, mod.worker, 16, ex, {'cfgs': ['snap']}, only=[0, 1, 9] if ctx.quick else [0, 1, 2, 5, 9, 13])
+            conn.send({'violations': [v for v in sub.violations if 'mutable-state:' in v['key']], 'n': sub.evaluations, 'error': None})
+        except Exception as e:
+            conn.send({'violations': [], 'n': 0, 'error': '%s: %s' % (name, str(e)[-600:])})
+        conn.close()
+    procs = []
+    for name, drv in SNAP_WORKLOADS:
+        pc, cc = mp.Pipe(False)
+        pr = mp.get_context('fork').Process(target=proc, args=(name, drv, cc))
+        pr.start()
+        procs.append((name, pr, pc))
+    for name, pr, pc in procs:
+        if not pc.poll(1800):
+            pr.kill()
+            raise harness.HarnessError('snapshot over the workload of %s did not finish in time (inconclusive)' % name)
+        res = pc.recv()
+        pr.join(30)
+        if res['error']:
+            raise harness.HarnessError('snapshot over a workload: %s' % res['error'])
+        for v in res['violations']:
+            syms = v['key'].split('mutable-state:', 1)[1]
+            for n in syms.split('+'):
+                ctx.violation('mutable-state:%s' % n, 'writable library symbol %s changed during the workload of %s (prod build): the library keeps state between calls' % (n, name.upper()), v['replay'])
+        ctx.event('writable-symbols-unchanged-over-workload', name.upper(), n=max(1, res['n']))
+        total += res['n']
+    ctx.extra['snapshot_workload_events'] = total
+
+
 def input_changes(ctx, out, cfg, how):
     """INPUT-CHANGED lines of the driver: a const input object differs from its snapshot after the workload"""
     for l in out.split('\n'):
@@ -289,6 +354,8 @@ def run(ctx):
             if cfg == 'prod':
                 syscalls(ctx, work, exe)
             snapshot(ctx, work, cfg, exe, objs)
+            if cfg == 'prod':
+                snapshot_workloads(ctx, work, objs)
         readonly_inputs(ctx, ['prod'] if ctx.quick else ['prod', 'p64', 'p32'])
         threads(ctx, ['tsan'] if ctx.quick else ['tsan', 'p64-tsan', 'p32-tsan'])
         helgrind(ctx, ['prod-g'])
@@ -303,7 +370,7 @@ def run(ctx):
                 'byte-compared with a snapshot after every workload, and production builds run every family sequentially and on 8 threads with those inputs in read-only pages (a write faults and '
                 'names the family and the field); (6) valgrind helgrind over the production build, which also observes the memory accesses of the assembly routines')
     ctx.assumptions = ['TSan does not see inside the assembly routines (helgrind on the production build does, at lower volume)', 'a finite number of schedules is observed, not all interleavings']
-    need = ['concurrent-run|helgrind-prod-g/T4', 'read-only-inputs|prod', 'closure-executed|prod', 'closure-executed|p64', 'closure-executed|p32', 'no-syscalls|', 'writable-symbol-unchanged|prod/', 'concurrent-run|tsan/T4', 'concurrent-run|tsan/T8']
+    need = ['writable-symbols-unchanged-over-workload|C04', 'writable-symbols-unchanged-over-workload|C11', 'writable-symbols-unchanged-over-workload|C15', 'concurrent-run|helgrind-prod-g/T4', 'read-only-inputs|prod', 'closure-executed|prod', 'closure-executed|p64', 'closure-executed|p32', 'no-syscalls|', 'writable-symbol-unchanged|prod/', 'concurrent-run|tsan/T4', 'concurrent-run|tsan/T8']
     for r in need:
         if not any(k.startswith(r) for k in ctx.classes):
             ctx.required_classes.add(r)
